@@ -100,6 +100,31 @@ impl World for AgentWorld {
         serde_json::to_value(scenario::generate(seed, self.focus, tier)).unwrap()
     }
 
+    fn generate_at(&self, verif_seed: u64, index: u64, tier: Tier) -> Json {
+        // Thorough tier of the persistence world: crash-point ENUMERATION. 48 consecutive indices share
+        // one base scenario (fault free, clean ending) and place the crash at every one of its first 24
+        // store calls (process killed inside call k, i.e. after call k-1 took effect) and after each of
+        // the first 24 frames read by any remote; each is followed by a restart on the surviving store.
+        if self.focus == "C05" && tier == Tier::Thorough {
+            const POINTS: u64 = 48;
+            let base = index / POINTS;
+            let point = index % POINTS;
+            let seed = crate::core::rng::mix(verif_seed, self.name, base);
+            let mut sc = scenario::generate(seed, self.focus, tier);
+            sc.knobs.persistent = true;
+            sc.restart = true;
+            if point < 24 {
+                sc.store_fault = StoreFaultCfg::PanicAt(point);
+                sc.ending = Ending::Stop;
+            } else {
+                sc.store_fault = StoreFaultCfg::None;
+                sc.ending = Ending::CrashAfterFrame(point - 23);
+            }
+            return serde_json::to_value(sc).unwrap();
+        }
+        self.generate(crate::core::rng::mix(verif_seed, self.name, index), tier)
+    }
+
     fn execute(&self, scenario: &Json, keep_log: bool) -> Outcome {
         let sc: AgentScenario = match serde_json::from_value(scenario.clone()) {
             Ok(s) => s,
